@@ -279,6 +279,8 @@ type caseState struct {
 	clientStream StreamObs
 	// server-side handlers (HTTP requests, gRPC streams) of this case that started / returned
 	started, finished int
+	// dialResp: the ordinary HTTP response that refused a websocket upgrade
+	dialResp *RawResp
 }
 
 // Main runs the protocol loop.
@@ -857,6 +859,12 @@ func (h *H) call(cs *caseState) {
 	if cs.clientStream.Ran || cs.clientStream.Dial != nil {
 		co := cs.clientStream
 		cs.obs.ClientStream = &co
+	}
+	if cs.dialResp != nil && cs.obs.Response == nil {
+		cs.obs.Response = cs.dialResp
+	}
+	if cs.clientStream.Dial != nil && len(cs.obs.Requests) == 0 {
+		cs.obs.Requests = append(cs.obs.Requests, *cs.clientStream.Dial)
 	}
 	cs.smu.Unlock()
 	if cerr != nil {
